@@ -387,6 +387,11 @@ def gen_case(rnd, i):
         ctx0 = {"other": "kept"}
         if rnd.random() < 0.7:
             ctx0["a"] = rnd.choice(["ctx-a", 5])        # otherwise the context-placed use fails as unresolved (unless it has a default)
+    if i % 16 == 3:
+        # a node that writes a declared key and then raises: its error SER describes the context as the node left it
+        nodes = [{"processor": "TSourceDef"}] + ([{"processor": "TProbe", "context_key": rnd.choice(["w", "c"])}] if rnd.random() < 0.5 else []) + \
+                [{"processor": "TWriteThenFail"}, {"processor": "TOp0"}]
+        ctx0 = {"other": "kept"}
     return nodes, ctx0
 
 
